@@ -124,7 +124,7 @@ func registerNatives(e *Engine) {
 			return nil, true
 		}
 		// decide pc ∧ ¬cond with the heavy portfolio
-		as := append(append([]*smt.Term{}, st.pc...), c.Not(cond))
+		as := append(e.relevant(st.pc, cond), c.Not(cond))
 		r, _, _ := e.S.CheckWith(as, nil, true)
 		switch r {
 		case smt.Unsat:
@@ -226,7 +226,94 @@ func registerNatives(e *Engine) {
 		return e.mkError(st, concStrArg(cc.Args[0])), true
 	})
 
+	// EqBytes: byte-wise equality of two slices as ONE term (no per-byte path split)
+	e.reg(V+"EqBytes", func(e *Engine, st *State, cc *CallCtx) (Value, bool) {
+		a, b := cc.Args[0].(SliceV), cc.Args[1].(SliceV)
+		aa, ao, al := e.bytesOf(st, a)
+		ba, bo, bl := e.bytesOf(st, b)
+		var n uint64
+		switch {
+		case al.IsConst():
+			n = al.Val
+		case bl.IsConst():
+			n = bl.Val
+		default:
+			n = e.upperBound(st, al)
+			if n > 4096 {
+				panic(unsupported("EqBytes on unbounded slices"))
+			}
+		}
+		cs := []*smt.Term{c.Eq(al, bl)}
+		for i := uint64(0); i < n; i++ {
+			ki := e.k64(i)
+			cs = append(cs, c.Or(c.Uge(ki, al), c.Eq(c.Select(aa, c.Add(ao, ki)), c.Select(ba, c.Add(bo, ki)))))
+		}
+		return c.And(cs...), true
+	})
+	// SetHash: the harness fixes the hash of a key (concrete or symbolic term) before it is used.
+	e.reg(V+"SetHash", func(e *Engine, st *State, cc *CallCtx) (Value, bool) {
+		key := cc.Args[0].(SliceV)
+		arr, off, ln := e.bytesOf(st, key)
+		if !ln.IsConst() {
+			panic(unsupported("SetHash on a key of symbolic length"))
+		}
+		bs := make([]*smt.Term, ln.Val)
+		for i := range bs {
+			bs[i] = c.Select(arr, c.Add(off, e.k64(uint64(i))))
+		}
+		var reg []hashEnt
+		if r, ok := st.heap[hashRegID]; ok {
+			reg = r.(NativeV).V.([]hashEnt)
+		}
+		nreg := append(append([]hashEnt(nil), reg...), hashEnt{key: bs, hash: cc.Args[1].(*smt.Term)})
+		st.dirty = true
+		st.heap[hashRegID] = NativeV{Tag: "hashreg", V: nreg}
+		return nil, true
+	})
+	// HashSeed: the hash function as an arbitrary function of the key bytes (equal keys => equal hash).
+	// Keys seen so far are kept in a per-path registry; a new key gets a fresh symbolic 64-bit hash.
+	e.reg(V+"HashSeed", func(e *Engine, st *State, cc *CallCtx) (Value, bool) {
+		key := cc.Args[0].(SliceV)
+		arr, off, ln := e.bytesOf(st, key)
+		if !ln.IsConst() {
+			panic(unsupported("HashSeed on a key of symbolic length"))
+		}
+		n := int(ln.Val)
+		bs := make([]*smt.Term, n)
+		for i := range bs {
+			bs[i] = c.Select(arr, c.Add(off, e.k64(uint64(i))))
+		}
+		var reg []hashEnt
+		if r, ok := st.heap[hashRegID]; ok {
+			reg = r.(NativeV).V.([]hashEnt)
+		}
+		for _, ent := range reg {
+			if len(ent.key) != n {
+				continue
+			}
+			cs := make([]*smt.Term, n)
+			for i := range bs {
+				cs[i] = c.Eq(bs[i], ent.key[i])
+			}
+			if e.branch(st, c.And(cs...)) {
+				return ent.hash, true
+			}
+		}
+		h := e.fresh(st, "u64", "hash", 64)
+		nreg := append(append([]hashEnt(nil), reg...), hashEnt{key: bs, hash: h})
+		st.dirty = true
+		st.heap[hashRegID] = NativeV{Tag: "hashreg", V: nreg}
+		return h, true
+	})
+
 	registerStd(e)
+}
+
+const hashRegID = -1
+
+type hashEnt struct {
+	key  []*smt.Term
+	hash *smt.Term
 }
 
 func boolTerm(e *Engine, b bool) *smt.Term { return e.C.Bool(b) }
